@@ -23,7 +23,7 @@ from checks.c05 import payload, BOUNDARY
 PROP = "C14"
 LEVEL = "exploration"
 RULE = ("seeded scenarios: populated parent-closed topology of 5..16 nodes over levels 0..4 (several per level), per-node "
-        "allow_multicast on/off, at most one relaying node, MCU jitter; 1..3 multicasts from every sender class (master, "
+        "allow_multicast on/off, at most one relaying node (levels 1..3, sometimes 4), MCU jitter, sometimes a failed unicast (absent neighbour) right before the multicast; 1..3 multicasts from every sender class (master, "
         "first child 0o1, other level-1 node, deeper levels) x target level in {default, 0..4}, lengths 0..144 (boundary "
         "biased), types 0..127. Non-trivial: the target level holds at least one other listening node; distinct = distinct "
         "abstract event sequences")
